@@ -16,6 +16,9 @@ build(spec)          -> library file.  route 'disk' returns an open
                         its reference before the next dataset is opened.
 model(spec)          -> IoapiModel (never touches PseudoNetCDF)
 data_of(spec, name)  -> float32 ndarray of the variable (deterministic ramp)
+spell_slice(draw, a, b, n)
+                     start/stop spelling of the range [a, b) incl. None,
+                     negative and out-of-range (clamped) values
 instants(sdate, stime, tstep, n) / yyyyjjj(dt) / hhmmss(dt) /
 tstep_timedelta(tstep) / timedelta_tstep(td)
                      integer-arithmetic time helpers (the time oracle)
@@ -216,6 +219,31 @@ def ioapispecs(draw, routes=ROUTES, ftypes=(1, 1, 2), max_vars=4, max_n=6,
         out['longvar'] = draw(st.sampled_from(LONG_NAMES))
         out['longpos'] = draw(st.integers(0, len(names)))
     return out
+
+
+def spell_slice(draw, a, b, n):
+    """(start, stop) spelling of the index range [a, b) of an axis of length
+    n (0 <= a < b <= n), drawn among everything a Python slice accepts:
+    non-negative, negative (index - n), None at an edge, and - at an edge -
+    values beyond the axis (start < -n, stop > n), which slice semantics
+    clamp.  range(n)[start:stop] == range(a, b) always holds."""
+    k = draw(st.integers(0, 5))
+    lo = a
+    if a == 0 and k in (1, 4):
+        lo = None
+    elif a == 0 and k in (2, 5):
+        lo = -n - draw(st.sampled_from([1, 1, 2, 5, 100]))
+    elif k == 3:
+        lo = a - n
+    k = draw(st.integers(0, 5))
+    hi = b
+    if b == n and k in (1, 4):
+        hi = None
+    elif b == n and k in (2, 5):
+        hi = n + draw(st.sampled_from([1, 1, 2, 5, 100]))
+    elif b < n and k == 3:
+        hi = b - n
+    return lo, hi
 
 
 # ------------------------------------------------------------ model
